@@ -3,7 +3,7 @@
    Model: Model/C20Threads.v (chunking of both call sites, small-step interleaving semantics, scratch split).
    All statements hold for EVERY item count >= 1 and thread count >= 1 (threads not dividing / exceeding the items
    included); items = 0 or threads = 0 make the Rust code panic (chunks_mut(0), division by zero): stated as guards. *)
-From PV Require Import Base.MachineInt Model.C20Threads Proofs.C20Partition Proofs.C20Sched Proofs.C20Scratch.
+From PV Require Import Base.MachineInt Model.C20Threads Proofs.C20Partition Proofs.C20Sched Proofs.C20Scratch Gen.C20_gen.
 From Coq Require Import Arith PeanoNat Permutation.
 Local Open Scope nat_scope.
 
@@ -243,3 +243,6 @@ Proof. reflexivity. Qed.
 Example C20_ex_split :
   split_mut 5 1000 3 (200)%Z = Some ([(64, 200); (320, 200); (576, 200)], (776, 229))%Z.
 Proof. vm_compute. reflexivity. Qed.
+(* the alignment constant of the model is the one in /repo/poulpy-hal/src/lib.rs (regenerated on every run) *)
+Example C20_ex_align_matches_source : DEFAULTALIGN = DEFAULTALIGN_src.
+Proof. reflexivity. Qed.
